@@ -1,14 +1,22 @@
-// Package vsync replaces "sync" in instrumented files: same method sets, every operation is a
-// scheduling point of the verifrt scheduler.  Outside an execution it behaves like a no-op lock
-// (the harness runs single-threaded there).
+// Package vsync replaces "sync" in instrumented files: same names, but every blocking or shared
+// operation is a scheduling point of the verifrt scheduler.  Outside an execution it behaves like
+// the uncontended primitive (the harness runs single-threaded there).
 package vsync
 
-import "github.com/gcash/bchutil/verifrt"
+import (
+	"sync"
+
+	"github.com/gcash/bchutil/verifrt"
+)
 
 type Mutex struct{ s verifrt.MutexState }
 
 func (m *Mutex) Lock()   { verifrt.Lock(&m.s) }
 func (m *Mutex) Unlock() { verifrt.Unlock(&m.s) }
+func (m *Mutex) TryLock() bool {
+	verifrt.P(0)
+	return verifrt.TryLock(&m.s)
+}
 
 type RWMutex struct{ s verifrt.MutexState }
 
@@ -16,3 +24,56 @@ func (m *RWMutex) Lock()    { verifrt.Lock(&m.s) }
 func (m *RWMutex) Unlock()  { verifrt.Unlock(&m.s) }
 func (m *RWMutex) RLock()   { verifrt.RLock(&m.s) }
 func (m *RWMutex) RUnlock() { verifrt.RUnlock(&m.s) }
+
+// Locker is sync.Locker.
+type Locker = sync.Locker
+
+// Pool is a deterministic model of sync.Pool: one LIFO free list shared by all logical threads, so
+// that an object that was Put is handed to the very next Get (the schedule in which a use-after-Put
+// is visible).  Get and Put are scheduling points; they are not reported as conflicting accesses
+// because the real Pool is safe for concurrent use.
+type Pool struct {
+	New   func() any
+	items []any
+}
+
+func (p *Pool) Get() any {
+	verifrt.P(0)
+	if n := len(p.items); n > 0 {
+		x := p.items[n-1]
+		p.items = p.items[:n-1]
+		return x
+	}
+	if p.New != nil {
+		return p.New()
+	}
+	return nil
+}
+
+func (p *Pool) Put(x any) {
+	verifrt.P(0)
+	p.items = append(p.items, x)
+}
+
+// Once: Do is a scheduling point; the function runs at most once (threads are serialised by the
+// scheduler, so no inner lock is needed).
+type Once struct{ done bool }
+
+func (o *Once) Do(f func()) {
+	verifrt.P(0)
+	if !o.done {
+		o.done = true
+		f()
+	}
+}
+
+// The remaining sync types are passed through unchanged.  Their blocking operations are not
+// scheduling points; code that waits on them under the scheduler would stall the execution, which
+// the scheduler's watchdog reports as a harness error, never as a verdict.
+type (
+	WaitGroup = sync.WaitGroup
+	Cond      = sync.Cond
+	Map       = sync.Map
+)
+
+func NewCond(l Locker) *Cond { return sync.NewCond(l) }
